@@ -101,6 +101,14 @@ class Check:
                 self.count("tag:" + c.tag)
             self.count("impl:" + (i if not i.startswith(("V ", "B ")) else i[0]))
             ok = answers_agree(i, m)
+            if not ok and i.startswith("E ") and m.startswith("E "):
+                # both reject, with different classes: harmless when several rejection reasons apply and the implementation reports
+                # another applicable one (independent checks re-ordered); the property oracle still judges the class itself
+                from . import schema
+                acc = schema.acceptable_outcomes(c.op, c.args)
+                if acc is not None and i in acc and m in acc:
+                    self.benign += 1
+                    ok = True
             if m.startswith("X ") or i.startswith("X "):
                 self.notes.append(f"protocol problem on {short(line, 200)}: impl={short(i, 80)} model={short(m, 80)}")
                 ok = False
